@@ -289,3 +289,13 @@ func mkSlice(arr, off, ln, cp smt.T) smt.T {
 }
 
 var nilSlice = smt.T{S: "(mkslice 0 0 0 0)", Sort: SliceSort}
+
+// at(off, i) is the array position of element i of a slice that starts at off. It is off+i, kept behind an
+// uninterpreted symbol (with a defining axiom) so that element reads make trigger terms without arithmetic.
+func (x *Exec) at(off, idx smt.T) smt.T {
+	f := x.ctx.Fun("at", []string{smt.Int, smt.Int}, smt.Int)
+	if _, ok := x.axioms["at"]; !ok {
+		x.axioms["at"] = "(assert (forall ((o!a Int) (j!a Int)) (! (= (at o!a j!a) (+ o!a j!a)) :pattern ((at o!a j!a)))))"
+	}
+	return smt.App(smt.Int, f, off, idx)
+}
